@@ -78,6 +78,8 @@ pub enum Event {
     Hold(u8),
     /// every held-back message re-enters the queue (at the back)
     Release,
+    /// the next Storage::append at node i fails (once per execution)
+    FailAppend(u8),
     /// node i's clock jumps one quantum ahead: its timers fire early
     Skew(u8),
     /// all traffic from and to node i is lost until Heal
@@ -112,6 +114,7 @@ impl Event {
             "Defer" => Event::Defer(k),
             "Delay" => Event::Delay(k),
             "Hold" => Event::Hold(k),
+            "FailAppend" => Event::FailAppend(k),
             "Skew" => Event::Skew(k),
             "Isolate" => Event::Isolate(k),
             "Append" => Event::Append(k),
@@ -132,6 +135,7 @@ pub const F_DOUBLE_VOTE: u32 = 32; // a node answered Vote with Ok for two candi
 pub const F_OLDER_LEADER_ACCEPTED: u32 = 128; // a node answered Ok to Append/Heartbeat of a leader whose term is lower than a term the node has already voted in
 pub const F_APPEND_ON_DIVERGENT_PREFIX: u32 = 256; // a follower stored entry i from a leader although its log below i differs from that leader's log
 pub const F_DIVERGENT_BY_BATCH: u32 = 512; // the FIRST such store of the history was made by an Append carrying several entries (a reconcile batch)
+pub const F_UNEXPLAINED_BAD_ELECTION: u32 = 1024; // a node entered Leader without a leader-committed entry while no other cause flag was set
 pub const F_STALE_VOTE: u32 = 64; // a candidate became leader counting an Ok reply to a Vote request of another term
 
 #[derive(Clone, Default, PartialEq, Eq, Debug)]
@@ -205,6 +209,8 @@ pub struct World {
     pub isolated: Option<u8>,
     pub appends: u8,
     pub dups: u8,
+    /// storage failures injected so far
+    pub storage_faults: u8,
     /// true: the network is an unordered multiset kept sorted by encoding (all-interleavings regime);
     /// false: FIFO queue (deviation-bounded regime)
     pub multiset: bool,
@@ -302,7 +308,7 @@ impl World {
                 )
             })
             .collect();
-        World { nodes, now: 0, skew: [0; N], net: vec![], delayed: vec![], held: vec![], isolated: None, appends: 0, dups: 0, multiset, ghost: Ghost::default() }
+        World { nodes, now: 0, skew: [0; N], net: vec![], delayed: vec![], held: vec![], isolated: None, appends: 0, dups: 0, storage_faults: 0, multiset, ghost: Ghost::default() }
     }
 
     fn clock(&self, i: usize) {
@@ -385,6 +391,14 @@ impl World {
                     self.push_net(p);
                 }
             }
+            Event::FailAppend(i) => {
+                let i = i as usize;
+                if i >= N || self.storage_faults >= 1 || self.nodes[i].storage.fail_next_append {
+                    return Err("FailAppend not enabled".into());
+                }
+                self.storage_faults += 1;
+                self.nodes[i].storage.fail_next_append = true;
+            }
             Event::Skew(i) => {
                 let i = i as usize;
                 if i >= N {
@@ -446,7 +460,8 @@ impl World {
                 self.appends += 1;
                 let data = self.appends;
                 self.clock(i);
-                let out = block_on(self.nodes[i].append(data, None)).unwrap_or_else(|e| panic!("HARNESS: append failed: {}", e.description));
+                // a storage error is returned to the client; nothing is sent (raft.rs `append`: `?`)
+                let out = block_on(self.nodes[i].append(data, None)).unwrap_or_default();
                 for r in out {
                     self.push_net(packet(Msg::Req(r)));
                 }
@@ -529,7 +544,8 @@ impl World {
                         let se = &self.nodes[sender].storage.entries;
                         let mine_below: Vec<(u64, u64, u8)> = { let mut v: Vec<(u64, u64, u8)> = after.entries.iter().filter(|e| e.index < top).map(|e| (e.index, e.term, e.data)).collect(); v.sort(); v.dedup(); v };
                         let theirs_below: Vec<(u64, u64, u8)> = { let mut v: Vec<(u64, u64, u8)> = se.iter().filter(|e| e.index < top).map(|e| (e.index, e.term, e.data)).collect(); v.sort(); v.dedup(); v };
-                        if self.nodes[sender].v_state().0 == raft::V_LEADER && mine_below != theirs_below {
+                        // (the sender may have been deposed since it sent the request; its log is still what the request was cut from)
+                        if mine_below != theirs_below {
                             if self.ghost.flags & F_APPEND_ON_DIVERGENT_PREFIX == 0 && r.v_logs().len() >= 2 {
                                 self.ghost.flags |= F_DIVERGENT_BY_BATCH;
                             }
@@ -617,6 +633,7 @@ impl World {
                 .cloned()
                 .collect();
             if let Some(m) = missing.first() {
+                let unexplained = self.cause() == "none";
                 let at = after.entries.iter().find(|e| e.index == m.0);
                 // did a node whose vote was counted hold the entry as committed (the vote check could have seen it)?
                 let voter_knew = (0..N).any(|v| v != i && self.ghost.counted[i][v] != 0 && self.nodes[v].storage.entries.iter().any(|e| e.committed && e.index == m.0 && e.term == m.1 && e.data == m.2));
@@ -639,6 +656,9 @@ impl World {
                         missing.len()
                     ),
                 });
+                if unexplained {
+                    self.ghost.flags |= F_UNEXPLAINED_BAD_ELECTION;
+                }
             }
         }
 
@@ -742,7 +762,9 @@ impl World {
     /// dominant causal flag of the history (most specific known cause first)
     pub fn cause(&self) -> &'static str {
         let f = self.ghost.flags;
-        if f & F_TWO_LEADERS != 0 {
+        if f & F_UNEXPLAINED_BAD_ELECTION != 0 {
+            "leader-elected-without-a-committed-entry-for-no-other-known-cause"
+        } else if f & F_TWO_LEADERS != 0 {
             "two-leaders-one-term"
         } else if f & F_OLDER_LEADER_ACCEPTED != 0 {
             "follower-of-older-term-leader-after-voting-in-newer-term"
@@ -801,6 +823,7 @@ impl World {
         out.extend_from_slice(&s.index.to_le_bytes());
         out.extend_from_slice(&s.term.to_le_bytes());
         out.extend_from_slice(&s.commit.to_le_bytes());
+        out.push(s.fail_next_append as u8);
         out.extend_from_slice(&(s.entries.len() as u32).to_le_bytes());
         for e in &s.entries {
             out.extend_from_slice(&e.index.to_le_bytes());
@@ -847,6 +870,7 @@ impl World {
         out.push(self.isolated.map(|i| i + 1).unwrap_or(0));
         out.push(self.appends);
         out.push(self.dups);
+        out.push(self.storage_faults);
         let split = out.len();
         if with_ghost {
             let g = &self.ghost;
